@@ -83,7 +83,7 @@ func H_C19_text_from_html() {
 // come out as pipe tables.
 //
 //symgo:harness prop=C15 kernel=K3-html-markdown-from-source
-//symgo:desc HTML source with an <h2>/<h4> heading (enumerated), an outer list <ol> or <ul> (enumerated) of two items whose first item holds a nested <ol> or <ul> (enumerated independently) of one item, and a 2x2 table with a pipe in a cell; parsed by the real HTML parser; Markdown with NavigationExclusionNone: the heading is '#' x level + text; list lines, in order: outer item, nested item indented by two spaces, outer item - each with "<number>. " if its own list is ordered and "- " if it is unordered; the table is one pipe table read back by the reference GFM reader
+//symgo:desc HTML source with an <h2>/<h4> heading (enumerated), an outer list <ol> or <ul> (enumerated) of two items whose first item holds a nested <ol> or <ul> (enumerated independently) of one item, and a 2x2 table with a pipe next to a non-ASCII letter in a cell; parsed by the real HTML parser; Markdown with NavigationExclusionNone: the heading is '#' x level + text; list lines, in order: outer item, nested item indented by two spaces, outer item - each with "<number>. " if its own list is ordered and "- " if it is unordered; the table is one pipe table read back by the reference GFM reader
 func H_C15_html_markdown_structure() {
 	hl := []int{2, 4}[vAnyIntIn(0, 1)]
 	outer := []string{"ol", "ul"}[vAnyIntIn(0, 1)]
@@ -91,7 +91,7 @@ func H_C15_html_markdown_structure() {
 	h := string(rune('0' + hl))
 	src := `<!DOCTYPE html><html><head><title>T</title></head><body><h` + h + `>HeadX</h` + h + `>` +
 		`<` + outer + `><li>ItemA<` + inner + `><li>ItemB</li></` + inner + `></li><li>ItemC</li></` + outer + `>` +
-		`<table><tr><th>c1</th><th>c2</th></tr><tr><td>a|b</td><td>d</td></tr></table></body></html>`
+		`<table><tr><th>c1</th><th>c2</th></tr><tr><td>é|y</td><td>d</td></tr></table></body></html>`
 	r, err := OpenReader(strings.NewReader(src))
 	vAssert("parses", err == nil && r != nil)
 	md, merr := r.MarkdownWithOptions(ExtractOptions{NavigationExclusion: NavigationExclusionNone})
@@ -146,7 +146,7 @@ func H_C15_html_markdown_structure() {
 	}
 	got, ok := vMarkdownTable(lines[k:e])
 	vAssert("table-is-a-2x2-pipe-table", ok && len(got) == 2 && len(got[0]) == 2 && len(got[1]) == 2)
-	vAssert("table-cell-texts", got[0][0] == "c1" && got[0][1] == "c2" && got[1][0] == "a|b" && got[1][1] == "d")
+	vAssert("table-cell-texts", got[0][0] == "c1" && got[0][1] == "c2" && got[1][0] == "é|y" && got[1][1] == "d")
 	vReach("end")
 }
 
@@ -171,7 +171,7 @@ func vMarkdownTable(lines []string) ([][]string, bool) {
 				cur = ""
 				continue
 			}
-			cur += string(line[i])
+			cur += line[i : i+1]
 		}
 		return append(cells, strings.TrimSpace(cur))
 	}
